@@ -232,8 +232,13 @@ func (r *Run) Write() error {
 	if err != nil {
 		return err
 	}
-	os.MkdirAll(filepath.Join(VerifDir, "evidence"), 0755)
-	return os.WriteFile(filepath.Join(VerifDir, "evidence", r.Prop+".json"), b, 0644)
+	dir := filepath.Join(VerifDir, "evidence")
+	if os.Getenv("SEEDTEST") != "" {
+		// a run against a deliberately broken tree (tools/seedtest.sh) must not overwrite the evidence of the real tree
+		dir = filepath.Join(VerifDir, "bin", "seedtest-evidence")
+	}
+	os.MkdirAll(dir, 0755)
+	return os.WriteFile(filepath.Join(dir, r.Prop+".json"), b, 0644)
 }
 
 // Finish writes evidence and returns the exit code (0 ok, 1 violation).
